@@ -190,6 +190,33 @@ func rpHandler(ops []Sx) rux.HandlerFunc {
 	}
 }
 
+// Rsi and Rss are REST controllers with one action each (the resource name is the lower-cased type name)
+type Rsi struct {
+	h    rux.HandlerFunc
+	uses []rux.HandlerFunc
+}
+
+func (c *Rsi) Index(ctx *rux.Context) { c.h(ctx) }
+func (c *Rsi) Uses() map[string][]rux.HandlerFunc {
+	if len(c.uses) == 0 {
+		return nil
+	}
+	return map[string][]rux.HandlerFunc{"Index": c.uses}
+}
+
+type Rss struct {
+	h    rux.HandlerFunc
+	uses []rux.HandlerFunc
+}
+
+func (c *Rss) Show(ctx *rux.Context) { c.h(ctx) }
+func (c *Rss) Uses() map[string][]rux.HandlerFunc {
+	if len(c.uses) == 0 {
+		return nil
+	}
+	return map[string][]rux.HandlerFunc{"Show": c.uses}
+}
+
 // rpController registers whatever its function registers (rux.ControllerFace)
 type rpController func()
 
@@ -266,7 +293,19 @@ func (e *rpEnv) stmts(ss []Sx) {
 			e.r.Use(e.handlers(s.List[1:])...)
 		case "group":
 			body := s.List[3].Lst()
-			if len(s.List) > 4 && s.List[4].Atom == "ctl" { // the same scope opened through Router.Controller
+			if len(s.List) > 4 && s.List[4].Atom == "res" {
+				// the same registration through Router.Resource: a group base+<resource name> holding the one REST action
+				// the controller has ("/" for Index, "{id}/" for Show), the action's Uses() middleware added to the route
+				pfx, rs := s.List[1].Str(), body[0]
+				base, kind := pfx[:len(pfx)-3], pfx[len(pfx)-3:]
+				main, later := e.handlers(rs.List[3:4])[0], e.handlers(rs.List[5].Lst())
+				var ctl any = &Rsi{h: main, uses: later}
+				if kind == "rss" {
+					ctl = &Rss{h: main, uses: later}
+				}
+				e.r.Resource(base, ctl, e.handlers(s.List[2].Lst())...)
+				e.routes = append(e.routes, e.r.GetRoute(rs.List[6].Str()))
+			} else if len(s.List) > 4 && s.List[4].Atom == "ctl" { // the same scope opened through Router.Controller
 				e.r.Controller(s.List[1].Str(), rpController(func() { e.stmts(body) }), e.handlers(s.List[2].Lst())...)
 			} else {
 				e.r.Group(s.List[1].Str(), func() { e.stmts(body) }, e.handlers(s.List[2].Lst())...)
